@@ -29,9 +29,9 @@ const softSP = "\x01"
 // RuleSet is a set of parser-rule indices (Rule.Index).
 type RuleSet [4]uint64
 
-func (r *RuleSet) Add(i int)      { r[i>>6] |= 1 << (uint(i) & 63) }
-func (r RuleSet) Has(i int) bool  { return i >= 0 && r[i>>6]&(1<<(uint(i)&63)) != 0 }
-func (r *RuleSet) Or(o RuleSet)   { r[0] |= o[0]; r[1] |= o[1]; r[2] |= o[2]; r[3] |= o[3] }
+func (r *RuleSet) Add(i int)              { r[i>>6] |= 1 << (uint(i) & 63) }
+func (r RuleSet) Has(i int) bool          { return i >= 0 && r[i>>6]&(1<<(uint(i)&63)) != 0 }
+func (r *RuleSet) Or(o RuleSet)           { r[0] |= o[0]; r[1] |= o[1]; r[2] |= o[2]; r[3] |= o[3] }
 func (r RuleSet) Union(o RuleSet) RuleSet { r.Or(o); return r }
 
 type Variant struct {
@@ -52,7 +52,7 @@ type Options struct {
 	Penalty map[string]int
 	// MemoMax is the largest deviation budget for which derivation lists are materialised and memoised (default 2).
 	MemoMax int
-	SPRule     string              // name of the whitespace token rule ("SP")
+	SPRule  string // name of the whitespace token rule ("SP")
 }
 
 type Gen struct {
